@@ -1,42 +1,157 @@
 ----------------------------- MODULE CfdpTrace -----------------------------
 (***************************************************************************)
-(* Trace validation, part 1: the property monitor.                         *)
+(* Trace validation of recorded executions of the real code (Level T       *)
+(* replays, Level D daemon runs) against the specification.                *)
 (*                                                                         *)
-(* Reads an ndjson trace recorded from the real code (Level T replay or    *)
-(* Level D daemon run).  A trace file holds any number of runs; each run   *)
-(* starts with a Reset line carrying the configuration.  Every line is     *)
-(* consumed (the monitor never blocks): the observation state is advanced  *)
-(* with Props!Step and every violated property is printed as               *)
-(*     <<"VIOL", run id, line index within the run, tag>>                  *)
-(* The verdict about the code is therefore TLC's evaluation of the same    *)
-(* operators that are model-checked in Cfdp.tla.                           *)
+(* A trace file (ndjson) holds any number of runs; each run starts with a  *)
+(* Reset line carrying the configuration.  Every line is consumed - the    *)
+(* validation never blocks, so one divergence does not leave the rest of   *)
+(* the trace unexamined:                                                   *)
+(*                                                                         *)
+(*  1. MONITOR.  The observation state is advanced with Props!Step from    *)
+(*     the recorded inputs/outputs and every violated property is printed: *)
+(*         <<"VIOL", run id, line, tag, signature>>                        *)
+(*     This is the verdict about the code: TLC evaluating, on what the     *)
+(*     code really did, the operators that are model-checked in Cfdp.tla.  *)
+(*                                                                         *)
+(*  2. CONFORMANCE.  The model's operator for the recorded action          *)
+(*     (Sender!SSend, Receiver!RPdu, ...) is applied to the model state    *)
+(*     adopted from the previous line's snapshot; its successor, outputs,  *)
+(*     indications and effect on the filestore are compared with the       *)
+(*     recorded ones.  A mismatch is printed:                              *)
+(*         <<"DRIFT", run id, line, action, set of differing parts>>       *)
+(*     and the recorded state is adopted, so the comparison continues      *)
+(*     from reality.  Drift is not a verdict about the code; it says that  *)
+(*     the exhaustive result on the model does not transfer to this step.  *)
 (***************************************************************************)
-EXTENDS Props, Json, IOUtils
+EXTENDS Cfdp0, Json, IOUtils
 
 Rec == ndJsonDeserialize(IOEnv.TRACE)
 
 VARIABLES l,      \* next line
-          r,      \* line of the current run's Reset
-          o       \* observation state
+          rs,     \* line of the current run's Reset
+          o,      \* observation state
+          m       \* model state adopted from the snapshots: [s, r, w]
 
-vars == <<l, r, o>>
+vars == <<l, rs, o, m>>
 
 IsReset(x) == x.a = "Reset"
 
+\* ------------------------------------------------------------ snapshots -> model records
+Cnt(j) == [run |-> j.run, cnt |-> j.cnt, occ |-> j.occ, el |-> j.el]
+
+SOfSnap(j) ==
+  IF ~j.alive THEN SDead
+  ELSE [ alive |-> TRUE, st |-> j.st, txs |-> j.txs, status |-> j.status, cond |-> j.cond,
+         deliv |-> j.deliv, fstat |-> j.fstat, naks |-> j.naks, progress |-> j.progress, rfs |-> j.rfs,
+         eof |-> [set |-> j.eof.set, cond |-> j.eof.cond, loc |-> j.eof.loc, flag |-> j.eof.flag,
+                  size |-> j.eof.size, ckok |-> j.eof.ckok],
+         ack |-> j.ack, ackcond |-> j.ackcond, ackstatus |-> j.ackstatus, prompt |-> j.prompt,
+         eofInd |-> j.eofInd, cursor |-> j.cursor, tAck |-> Cnt(j.tAck), tInact |-> Cnt(j.tInact) ]
+
+ROfSnap(j) ==
+  IF ~j.alive THEN RDead
+  ELSE [ alive |-> TRUE, st |-> j.st, txs |-> j.txs, status |-> j.status, cond |-> j.cond,
+         deliv |-> j.deliv, fstat |-> j.fstat, resp |-> j.resp, meta |-> j.meta, closure |-> j.closure,
+         segs |-> j.segs, rsize |-> j.rsize, eofrx |-> j.eofrx, fsize |-> j.fsize,
+         ckset |-> j.ckset, ckok |-> j.ckok, ack |-> j.ack, ackcond |-> j.ackcond, ackstatus |-> j.ackstatus,
+         fopen |-> j.fopen,
+         fin |-> [set |-> j.fin.set, cond |-> j.fin.cond, deliv |-> j.fin.deliv, fstat |-> j.fin.fstat,
+                  resp |-> j.fin.resp, loc |-> j.fin.loc, flag |-> j.fin.flag],
+         prompt |-> j.prompt, naks |-> j.naks, nakMark |-> j.nakMark,
+         delayed |-> [i \in 1 .. Len(j.delayed) |-> [c |-> Cnt(j.delayed[i].c), a |-> j.delayed[i].a, b |-> j.delayed[i].b]],
+         tAck |-> Cnt(j.tAck), tInact |-> Cnt(j.tInact), tNak |-> Cnt(j.tNak) ]
+
+\* the loop guards are part of what is compared
+SGuards(s, C) == [until |-> SUntil(s, C), can |-> SCan(s)]
+RGuards(r, C) == [until |-> RUntil(r, C), can |-> RCan(r)]
+SnapGuards(j) == IF j.alive THEN [until |-> j.until, can |-> j.can] ELSE [until |-> Never, can |-> FALSE]
+
+Strip(p) == [f \in (DOMAIN p) \ {"bytes"} |-> p[f]]
+StripAll(q) == [i \in 1 .. Len(q) |-> Strip(q[i])]
+IndsOfE(q, e) == SelectSeq(q, LAMBDA x : x.e = e)
+
+\* ------------------------------------------------------------ the model's prediction for one line
+Unchanged(mm, res) == [s |-> mm.s, r |-> mm.r, w |-> mm.w, out |-> <<>>, ind |-> <<>>, res |-> res]
+
+Predict(mm, e, C) ==
+  LET s == mm.s
+      r == mm.r
+      w == mm.w
+  IN CASE e.a = "S_Send" ->
+            IF SCan(s) THEN LET x == SSend(s, C) IN [s |-> x.s, r |-> r, w |-> w, out |-> x.out, ind |-> x.ind, res |-> x.res]
+            ELSE Unchanged(mm, "disabled")
+       [] e.a = "R_Send" ->
+            IF RCan(r) THEN LET x == RSend(r, w, C) IN [s |-> s, r |-> x.r, w |-> x.w, out |-> x.out, ind |-> x.ind, res |-> x.res]
+            ELSE Unchanged(mm, "disabled")
+       [] e.a = "S_Timeout" ->
+            IF s.alive /\ SUntil(s, C) = 0
+            THEN LET x == STimeout(s, C) IN [s |-> x.s, r |-> r, w |-> w, out |-> <<>>, ind |-> x.ind, res |-> x.res]
+            ELSE Unchanged(mm, "disabled")
+       [] e.a = "R_Timeout" ->
+            IF r.alive /\ RUntil(r, C) = 0
+            THEN LET x == RTimeout(r, w, C) IN [s |-> s, r |-> x.r, w |-> x.w, out |-> <<>>, ind |-> x.ind, res |-> x.res]
+            ELSE Unchanged(mm, "disabled")
+       [] e.a = "S_Cmd" ->
+            IF s.alive THEN LET x == SCmd(s, C, e.c) IN [s |-> x.s, r |-> r, w |-> w, out |-> <<>>, ind |-> x.ind, res |-> x.res]
+            ELSE Unchanged(mm, "disabled")
+       [] e.a = "R_Cmd" ->
+            IF r.alive THEN LET x == RCmd(r, w, C, e.c) IN [s |-> s, r |-> x.r, w |-> x.w, out |-> <<>>, ind |-> x.ind, res |-> x.res]
+            ELSE Unchanged(mm, "disabled")
+       [] e.a = "Tick" -> [s |-> STick(s, e.d), r |-> RTick(r, e.d), w |-> w, out |-> <<>>, ind |-> <<>>, res |-> "ok"]
+       [] e.a = "Deliver" /\ e.res = "disabled" -> Unchanged(mm, "disabled")
+       [] e.a = "Deliver" /\ e.pin.k = "Garbage" -> Unchanged(mm, e.res)
+       [] e.a = "Deliver" /\ e.ch = "c2r" ->
+            LET spawn == ~r.alive
+                r0 == IF spawn THEN RInit(C) ELSE r
+                x == RPdu(r0, w, C, Strip(e.pin))
+            IN [s |-> s, r |-> x.r, w |-> x.w, out |-> <<>>,
+                ind |-> (IF spawn THEN <<RReport(r0)>> ELSE <<>>) \o x.ind, res |-> x.res]
+       [] e.a = "Deliver" ->
+            IF s.alive THEN LET x == SPdu(s, C, Strip(e.pin)) IN [s |-> x.s, r |-> r, w |-> w, out |-> <<>>, ind |-> x.ind, res |-> x.res]
+            ELSE Unchanged(mm, "no_sender")
+       [] OTHER -> Unchanged(mm, e.res)        \* Drop, Dup, Corrupt, Inject: link only
+
+\* parts in which prediction and record differ
+Diff(p, e, C) ==
+  LET js == SOfSnap(e.S)
+      jr == ROfSnap(e.R)
+  IN   (IF p.s # js THEN {"S"} ELSE {})
+  \cup (IF p.r # jr THEN {"R"} ELSE {})
+  \cup (IF p.s.alive /\ e.S.alive /\ SGuards(p.s, C) # SnapGuards(e.S) THEN {"Sguards"} ELSE {})
+  \cup (IF p.r.alive /\ e.R.alive /\ RGuards(p.r, C) # SnapGuards(e.R) THEN {"Rguards"} ELSE {})
+  \cup (IF p.out # StripAll(e.out) THEN {"out"} ELSE {})
+  \cup (IF p.ind # e.ind THEN {"ind"} ELSE {})
+  \cup (IF p.res # e.res /\ ~(p.res = "ok" /\ e.res = "ok") THEN {"res"} ELSE {})
+  \cup (IF p.w.dest # e.dest THEN {"dest"} ELSE {})
+  \cup (IF p.w.tree # e.tree THEN {"tree"} ELSE {})
+
 Init == /\ l = 1
-        /\ r = 0
+        /\ rs = 0
         /\ o = [none |-> TRUE]
+        /\ m = [none |-> TRUE]
 
 Next ==
   /\ l <= Len(Rec)
   /\ l' = l + 1
   /\ IF IsReset(Rec[l])
-     THEN /\ r' = l
+     THEN /\ rs' = l
           /\ o' = ObsInit(Rec[l].cfg)
-     ELSE LET st == Step(o, Rec[l], Rec[r].cfg) IN
-          /\ r' = r
-          /\ o' = st.o
-          /\ \A x \in st.v : PrintT(<<"VIOL", Rec[r].id, Rec[l].i, x[1], x[2]>>)
+          /\ m' = [s |-> SInit(Rec[l].cfg), r |-> RDead,
+                   w |-> [dest |-> [st |-> "absent", len |-> 0], tree |-> Rec[l].cfg.pre]]
+     ELSE LET e == Rec[l]
+              C == Rec[rs].cfg
+              st == Step(o, e, C)
+              p == Predict(m, e, C)
+              d == Diff(p, e, C)
+          IN /\ rs' = rs
+             /\ o' = st.o
+             /\ m' = [s |-> SOfSnap(e.S), r |-> ROfSnap(e.R), w |-> [dest |-> e.dest, tree |-> e.tree]]
+             /\ \A x \in st.v : PrintT(<<"VIOL", Rec[rs].id, e.i, x[1], x[2]>>)
+             /\ d # {} => PrintT(<<"DRIFT", Rec[rs].id, e.i, e.a, d>>)
+             /\ (d # {} /\ "DETAIL" \in DOMAIN IOEnv) =>
+                   PrintT(<<"DETAIL", Rec[rs].id, e.i, [s |-> p.s, r |-> p.r, out |-> p.out, ind |-> p.ind, res |-> p.res, w |-> p.w],
+                            [s |-> SOfSnap(e.S), r |-> ROfSnap(e.R)]>>)
 
 Spec == Init /\ [][Next]_vars
 
